@@ -254,7 +254,7 @@ def extract_weights(
     # TODO: Improve docstring
     if weights is None:
         return None
-    weights_array = np.asarray(weights)
+    weights_array = widen_weights(np.asarray(weights))
     if array_mask is not None:
         if array_mask.shape != weights_array.shape:
             raise ValueError(
@@ -264,6 +264,15 @@ def extract_weights(
     else:
         weights_array = weights_array.flatten()
     return weights_array
+
+
+def widen_weights(weights: np.ndarray) -> np.ndarray:
+    """Weights are summed and squared, so narrow types are widened first (as numpy's sum does)."""
+    if weights.dtype.kind in "bi" or (weights.dtype.kind == "u" and weights.dtype.itemsize < 8):
+        return weights.astype(np.int64)
+    if weights.dtype.kind == "f" and weights.dtype.itemsize < 8:
+        return weights.astype(np.float64)
+    return weights
 
 
 @overload
@@ -334,6 +343,7 @@ def calculate_nd_frequencies(
             raise ValueError("Weights specified but data not.")
         if data.shape[0] != weights.shape[0]:
             raise ValueError("Different number of entries in data and weights.")
+        weights = widen_weights(weights)
         if dtype:
             dtype = np.dtype(dtype)
             if dtype.kind in "iu" and weights.dtype.kind == "f":
@@ -430,7 +440,7 @@ def calculate_1d_frequencies(
     # Prepare 1D numpy array of weights
     if weights is not None:
         # TODO: It should be an array already
-        weights_array = weights
+        weights_array = widen_weights(np.asarray(weights))
         if weights_array.ndim > 1:
             weights_array = weights_array.flatten()
 
